@@ -91,6 +91,8 @@ func prepareGocritic() (*gocritic, error) {
 
 	globalGocriticMu.Lock()
 	defer globalGocriticMu.Unlock()
+	verifPrep("Lock")
+	defer verifPrep("Unlock")
 
 	// Don't report init error ever again if it was already reported.
 	if globalInitErrorReported {
